@@ -4,7 +4,8 @@ import ast
 
 from .. import AnalysisError
 from ..astutil import src, call_name, dotted, walk_local, try_fold, ancestors, canon
-from ..fn import FA
+from ..fn import FA, expand
+from ..normal import canon_expr
 
 META = {
     'property': 'C19',
@@ -234,81 +235,206 @@ def check_ab(ctx, repo):
 
 def interp_axis_map(repo):
     """From the 2-D dispatch of djs_maskinterp: value of `axis` -> position of the interpolated (':') axis."""
+    from .c17 import idx_tuple
     f = repo.func(IMAGE, 'djs_maskinterp')
+    fa = FA(f)
+    axp = f.params[3] if len(f.params) > 3 else 'axis'
     out = {}
-    for n in walk_local(f.node):
-        if isinstance(n, ast.If) and src(n.test) == 'ndim == 2':
-            for m in [x for b in n.body for x in ast.walk(b)]:
-                if isinstance(m, ast.If) and src(m.test) == 'axis == 0':
-                    for branch, key in ((m.body, 0), (m.orelse, 'else')):
-                        for st in [x for b in branch for x in ast.walk(b)]:
-                            if isinstance(st, ast.Assign) and isinstance(st.targets[0], ast.Subscript) and isinstance(st.targets[0].slice, ast.Tuple):
-                                el = [src(e) for e in st.targets[0].slice.elts]
-                                if ':' in el:
-                                    out[key] = el.index(':')
+    for c in walk_local(f.node):
+        if not (isinstance(c, ast.Call) and call_name(c) == 'djs_maskinterp1'):
+            continue
+        st = c
+        while not isinstance(st, ast.stmt):
+            st = st._parent
+        if not (isinstance(st, ast.Assign) and isinstance(st.targets[0], ast.Subscript)):
+            continue
+        el = idx_tuple(st.targets[0], fa)
+        if len(el) != 2 or ':' not in el:
+            continue
+        child = st
+        for a in ancestors(st):
+            if isinstance(a, ast.If):
+                t = canon_expr(a.test)
+                if isinstance(t, ast.Compare) and len(t.ops) == 1 and isinstance(t.ops[0], ast.Eq):
+                    sides = [t.left, t.comparators[0]]
+                    nm = [x for x in sides if isinstance(x, ast.Name) and x.id == axp]
+                    k = [try_fold(x) for x in sides if not (isinstance(x, ast.Name) and x.id == axp)]
+                    if nm and k and isinstance(k[0], int):
+                        inbody = any(child is b_ or child in list(ast.walk(b_)) for b_ in a.body)
+                        key = k[0] if inbody else 'else'
+                        if out.get(key, el.index(':')) != el.index(':'):
+                            raise AnalysisError('C19: djs_maskinterp dispatches axis=%s to two different array axes' % key)
+                        out[key] = el.index(':')
+                        break
+            child = a
     return out
+
+
+def _none_test(t, name):
+    t = canon_expr(t)
+    if isinstance(t, ast.Compare) and len(t.ops) == 1:
+        sides = [t.left, t.comparators[0]]
+        if any(isinstance(x, ast.Name) and x.id == name for x in sides) and any(isinstance(x, ast.Constant) and x.value is None for x in sides):
+            return 1 if isinstance(t.ops[0], (ast.Is, ast.Eq)) else -1 if isinstance(t.ops[0], (ast.IsNot, ast.NotEq)) else 0
+    return 0
+
+
+def _under_none(node, name):
+    """+1 when node is only reached with `name is None`, -1 with `name is not None`, 0 when unconditional."""
+    child = node
+    for a in ancestors(node):
+        if isinstance(a, ast.If) and _none_test(a.test, name):
+            inbody = any(child is b_ or child in list(ast.walk(b_)) for b_ in a.body)
+            return _none_test(a.test, name) * (1 if inbody else -1)
+        if isinstance(a, ast.IfExp) and _none_test(a.test, name):
+            return _none_test(a.test, name) * (1 if (child is a.body) else -1 if (child is a.orelse) else 0)
+        child = a
+    return 0
+
+
+def _sum_axis(c):
+    """(receiver, axis) of X.sum(k) / X.sum(axis=k) / np.sum(X, k) / np.sum(X, axis=k)."""
+    if not (isinstance(c, ast.Call) and call_name(c) == 'sum' and isinstance(c.func, ast.Attribute)):
+        return None
+    args = list(c.args)
+    if isinstance(c.func.value, ast.Name) and c.func.value.id in ('np', 'numpy'):
+        if not args:
+            return None
+        recv, args = args[0], args[1:]
+    else:
+        recv = c.func.value
+    ax = None
+    for k in c.keywords:
+        if k.arg == 'axis':
+            ax = try_fold(k.value)
+    if ax is None and args:
+        ax = try_fold(args[0])
+    return recv, ax
 
 
 def check_filter(ctx, repo):
     f = repo.func(SPEC2D, 'filter_thru')
+    g = repo.func(IMAGE, 'djs_maskinterp')
     fa = FA(f)
     ctx.cover(f)
+    flux = f.params[0]
+    maskp = 'mask' if 'mask' in f.params else f.params[3]
     mi = [c for c in walk_local(f.node) if isinstance(c, ast.Call) and call_name(c) == 'djs_maskinterp']
     ctx.need(len(mi) == 1, 'filter_thru: djs_maskinterp call not found')
     c = mi[0]
-    ax = 0
-    for k in c.keywords:
-        if k.arg == 'axis':
-            ax = try_fold(k.value)
+    bound = dict(zip(g.params, c.args))
+    bound.update({k.arg: k.value for k in c.keywords if k.arg})
+    ax = try_fold(bound[g.params[3]]) if g.params[3] in bound else None
     amap = interp_axis_map(repo)
     ctx.need(0 in amap and 'else' in amap, 'djs_maskinterp: 2-D axis dispatch not recognised')
-    interp_pos = amap[0] if ax == 0 else amap['else']
-    sums = [x for x in walk_local(f.node) if isinstance(x, ast.Call) and call_name(x) == 'sum' and isinstance(x.func, ast.Attribute) and x.args]
-    sum_axes = {try_fold(x.args[0]) for x in sums}
+    if ax is None and g.params[3] in bound:
+        raise AnalysisError('C19: filter_thru passes a computed axis to djs_maskinterp: not an idiom this checker can judge')
+    interp_pos = amap[ax] if ax in amap else amap['else']
+    sums = [(x, _sum_axis(x)) for x in walk_local(f.node) if _sum_axis(x) is not None]
+    sum_axes = {sa[1] for x, sa in sums}
     ctx.check('C19.FILTER', sum_axes == {interp_pos}, f, c,
-              'masked pixels are interpolated along array axis %d (djs_maskinterp axis=%s), the axis the band sum runs over (%s)' % (interp_pos, ax, sorted(sum_axes)),
+              'masked pixels are interpolated along array axis %d (djs_maskinterp axis=%s), the axis the band sum runs over (%s)' % (interp_pos, ax, sorted(sum_axes, key=str)),
               msg='filter_thru interpolates masked pixels with axis=%s, i.e. along array axis %d, but sums over axis %s: masked pixels are filled in from '
-                  'other traces instead of neighbouring wavelengths' % (ax, interp_pos, sorted(sum_axes)), construct='interpolation axis %s vs sum axis %s' % (interp_pos, sorted(sum_axes)))
-    ok = [src(a) for a in c.args[:2]] == [f.params[0], 'mask']
+                  'other traces instead of neighbouring wavelengths' % (ax, interp_pos, sorted(sum_axes, key=str)),
+              construct='interpolation axis %s vs sum axis %s' % (interp_pos, sorted(sum_axes, key=str)))
+    a_y, a_m = bound.get(g.params[0]), bound.get(g.params[1])
+    ok = isinstance(a_y, ast.Name) and a_y.id == flux and isinstance(a_m, ast.Name) and a_m.id == maskp
     ctx.check('C19.FILTER', ok, f, c, 'the flux is interpolated over the caller\'s mask', msg='djs_maskinterp is not applied to (flux, mask)', construct='maskinterp arguments')
-    iname = src(c._parent.targets[0]) if isinstance(c._parent, ast.Assign) else None
-    # what is summed
+
+    # what is summed: on every path where a mask may be given, the interpolated flux
+    def sources(e, cond, depth=0):
+        """[(kind, condition)] for a flux-like operand: kind in interp / raw / other."""
+        if depth > 4:
+            return [('other', cond)]
+        if e is c:
+            return [('interp', cond)]
+        if isinstance(e, ast.Name) and e.id == flux and fa.is_param(e):
+            return [('raw', cond)]
+        if isinstance(e, ast.IfExp) and _none_test(e.test, maskp):
+            s_ = _none_test(e.test, maskp)
+            return sources(e.body, cond or s_, depth + 1) + sources(e.orelse, cond or -s_, depth + 1)
+        if isinstance(e, ast.Name):
+            out = []
+            for d, v in fa.defs(e):
+                if v is None or d is None:
+                    continue            # possibly unbound on the unmasked path: not a source
+                out += sources(v, cond or _under_none(d, maskp), depth + 1)
+            return out
+        return [('other', cond)]
     bad = []
     n = 0
-    for st in walk_local(f.node):
-        if isinstance(st, ast.Assign) and isinstance(st.targets[0], ast.Subscript) and src(st.targets[0].value) == 'res' and '.sum(' in src(st.value):
-            n += 1
-            uses_raw = any(isinstance(x, ast.Name) and x.id == f.params[0] for x in ast.walk(st.value))
-            uses_int = any(isinstance(x, ast.Name) and x.id == iname for x in ast.walk(st.value))
-            conds = [(src(a.test), any(st is b or st in list(ast.walk(b)) for b in a.body)) for a in ancestors(st) if isinstance(a, ast.If)]
-            masked_path = not any((t == 'mask is not None' and not inb) or (t == 'mask is None' and inb) for t, inb in conds)
-            if masked_path and uses_raw and not uses_int:
-                # raw flux summed on a path where a mask may be given
-                if not any((t == 'mask is None' and inb) or (t == 'mask is not None' and not inb) for t, inb in conds):
-                    bad.append(st)
-            if uses_int:
-                # interpolated flux must be the interpolation result on every masked path
-                for d, v in fa.defs([x for x in ast.walk(st.value) if isinstance(x, ast.Name) and x.id == iname][0]):
-                    if v is not None and not (isinstance(v, ast.Call) and call_name(v) == 'djs_maskinterp'):
-                        und = [(src(a.test), any(d is b or d in list(ast.walk(b)) for b in a.body)) for a in ancestors(d) if isinstance(a, ast.If)]
-                        if not any((t == 'mask is None' and inb) or (t == 'mask is not None' and not inb) for t, inb in und):
-                            bad.append(d)
+    weight_names = set()
+    for x, (recv, axis_) in sums:
+        names = [y for y in ast.walk(recv) if isinstance(y, ast.Name) and isinstance(y.ctx, ast.Load)]
+        fl = []
+        for y in names:
+            ss = sources(y, _under_none(x, maskp))
+            if any(k_ in ('interp', 'raw') for k_, _ in ss):
+                fl.append((y, ss))
+        if not fl:
+            weight_names |= {y.id for y in names}
+            continue
+        n += 1
+        for y, ss in fl:
+            for k_, cnd in ss:
+                if k_ == 'raw' and cnd != 1:
+                    bad.append(x)
+                elif k_ == 'other':
+                    raise AnalysisError('C19: the flux summed by filter_thru (`%s`) has a source this checker cannot judge' % y.id)
+        weight_names |= {y.id for y in names if y.id not in {z.id for z, _ in fl}}
     ctx.check('C19.FILTER', n >= 1 and not bad, f, bad[0] if bad else f.node, 'with a mask, the summed quantity is the interpolated flux, never the raw flux',
               msg='filter_thru sums the raw flux on a path where a mask was given: %s' % (src(bad[0])[:70] if bad else ''), construct='summed quantity')
-    fi = [st for st in walk_local(f.node) if isinstance(st, ast.Assign) and src(st.targets[0]) == 'filtimg']
+    # the weight image: (positive) pixel size times the interpolated response
+    fi = []
+    for st in walk_local(f.node):
+        if isinstance(st, ast.Assign) and len(st.targets) == 1 and isinstance(st.targets[0], ast.Name) and st.targets[0].id in weight_names \
+                and isinstance(st.value, ast.BinOp) and isinstance(st.value.op, ast.Mult):
+            ex = expand(st.value, fa, depth=5, calls=True)
+            if any(isinstance(y, ast.Call) and call_name(y) == 'interp' for y in ast.walk(ex)):
+                fi.append(st)
     okabs = False
-    if fi:
-        w = [x for x in ast.walk(fi[0].value) if isinstance(x, ast.Name) and x.id == 'logdiff']
-        if w:
-            ds = [v for d, v in fa.defs(w[0]) if v is not None]
-            okabs = bool(ds) and all(isinstance(v, ast.Call) and call_name(v) in ('absolute', 'abs', 'fabs') for v in ds)
+    if len(fi) == 1:
+        fac = [fi[0].value.left, fi[0].value.right]
+        w = [y for y in fac if not any(isinstance(z, ast.Call) and call_name(z) == 'interp' for z in ast.walk(expand(y, fa, depth=5, calls=True)))]
+        if len(w) == 1:
+            vs = [w[0]] if not isinstance(w[0], ast.Name) else [v for d, v in fa.defs(w[0]) if v is not None]
+            okabs = bool(vs) and all(isinstance(v, ast.Call) and call_name(v) in ('absolute', 'abs', 'fabs') for v in vs)
+    else:
+        raise AnalysisError('C19: the weight image of filter_thru (pixel size times response) was not found: not an idiom this checker can judge')
     ctx.check('C19.FILTER', okabs, f, fi[0] if fi else f.node, 'the pixel weights d(log lambda) are made positive (np.absolute) before they multiply the response',
               msg='the d(log lambda) weights reach the band sum without np.absolute: for a wavelength solution that decreases with pixel index the weights are '
                   'negative and the zero-guard of the normalisation turns the weighted mean into nonsense', construct='logdiff sign')
-    norm = [st for st in walk_local(f.node) if isinstance(st, ast.Assign) and isinstance(st.targets[0], ast.Subscript) and src(st.targets[0].value) == 'res' and '/' in src(st.value)]
-    ok = len(norm) == 1 and 'sumfilt + (sumfilt <= 0)' in src(norm[0].value)
-    sf = [st for st in walk_local(f.node) if isinstance(st, ast.Assign) and src(st.targets[0]) == 'sumfilt']
-    ok = ok and len(sf) == 1 and src(sf[0].value) == 'filtimg.sum(%d)' % interp_pos
+    wname = fi[0].targets[0].id
+    rets = [r for r in fa.returns() if isinstance(r.value, ast.Name)]
+    ctx.need(len(rets) == 1, 'filter_thru: return of the result array not found')
+    res = rets[0].value.id
+    norm = [st for st in walk_local(f.node) if isinstance(st, (ast.Assign, ast.AugAssign)) and isinstance(st.targets[0] if isinstance(st, ast.Assign) else st.target, ast.Subscript)
+            and src((st.targets[0] if isinstance(st, ast.Assign) else st.target).value) == res
+            and ((isinstance(st, ast.Assign) and isinstance(st.value, ast.BinOp) and isinstance(st.value.op, ast.Div)) or
+                 (isinstance(st, ast.AugAssign) and isinstance(st.op, ast.Div)))]
+    ok = len(norm) == 1
+    if ok:
+        den = norm[0].value.right if isinstance(norm[0], ast.Assign) else norm[0].value
+        dn = [y for y in ast.walk(den) if isinstance(y, ast.Name) and isinstance(y.ctx, ast.Load) and y.id not in ('np', 'numpy')]
+        sfn = {y.id for y in dn}
+        ok = len(sfn) == 1
+        if ok:
+            # S + (S <= 0)   |   np.where(S <= 0, 1, S)  |  np.where(S > 0, S, 1)
+            d2 = canon_expr(den)
+            guard = False
+            if isinstance(d2, ast.BinOp) and isinstance(d2.op, ast.Add):
+                for u, w_ in ((d2.left, d2.right), (d2.right, d2.left)):
+                    cmp_ = [y for y in ast.walk(w_) if isinstance(y, ast.Compare)]
+                    if isinstance(u, ast.Name) and len(cmp_) == 1 and src(cmp_[0]).replace(' ', '') in ('%s<=0' % u.id, '0>=%s' % u.id, '%s<=0.0' % u.id,
+                                                                                                         '0.0>=%s' % u.id, '%s==0' % u.id, '0==%s' % u.id):
+                        guard = True
+            elif isinstance(d2, ast.Call) and call_name(d2) == 'where' and len(d2.args) == 3:
+                guard = True
+            else:
+                raise AnalysisError('C19: the zero guard of the band normalisation (`%s`) is not an idiom this checker can judge' % src(den)[:60])
+            sdef = [v for d, v in fa.defs(dn[0]) if v is not None]
+            ok = guard and len(sdef) == 1 and _sum_axis(sdef[0]) is not None and isinstance(_sum_axis(sdef[0])[0], ast.Name) \
+                and _sum_axis(sdef[0])[0].id == wname and _sum_axis(sdef[0])[1] == interp_pos
     ctx.check('C19.FILTER', ok, f, norm[0] if norm else f.node, 'each band is divided by its own response sum, guarded against zero',
               msg='the band normalisation is not res / (sumfilt + (sumfilt <= 0)) with sumfilt the response sum of the same band', construct='band normalisation')
 
